@@ -2,12 +2,15 @@
 from common import SYNC_RW, RAFT_ENV  # noqa: F401
 
 CHECK = {'level': 'model_checking',
- 'rule': 'one response-wrapping token (wrapped secret; thorough: also wrapped list and wrapped login) attacked by '
+ 'rule': 'one response-wrapping token (wrapped secret, secret wrapped inside a child namespace and attacked from the '
+         'parent; thorough: also wrapped list and wrapped login) attacked by '
          'every multiset of 2 (thorough: 3) concurrent requests from {unwrap as client token, third-party unwrap, '
          'rewrap, lookup, revoke-by-accessor, direct cubbyhole read, misuse on another path}; stateless DFS over all '
          'interleavings at storage-operation granularity up to the preemption bound, followed by a sequential tail of '
          'repeated attempts on the original and every rewrapped token; E: expiry of the token after each prefix of '
-         'lookup / rewrap calls x 3 wrap kinds; non-trivial = distinct (scenario, outcome)',
+         'lookup / rewrap calls x 4 wrap kinds; R: rewrap chains; F: every single storage fault inside a consuming '
+         'request (unwrap, rewrap, revoke): payload disclosed at most once, the payload never outlives its token '
+         'entry, nothing of the payload is left after the TTL; non-trivial = distinct (scenario, outcome)',
  'assumptions': ['a disclosure is a successful response containing the payload canary (for wrapped logins: a client '
                  'token)',
                  'TTL expiry is an explicit event: the stored lease times are moved into the past through sys/raw, the node '
